@@ -406,10 +406,88 @@ def work(run, start, count):
                           dict(config=M.render(cfg, idx % 30), tb=traceback.format_exc()[-800:]))
 
 
+def isolation(run, start, count):
+    """contexts do not influence each other: context A is used, then other contexts over the same schemes with other
+    options are built and used, then A must still give the answers it gave before - in particular the hashes A made
+    earlier still need no update, and new ones carry A's parameters"""
+    import re
+    from passlib.context import CryptContext
+    from checks import c10
+    P = "iso pw"          # (short enough for every truncation policy the generator may switch on)
+    for idx in range(start, start + count):
+        rng = run.rng(f"iso{idx}")
+        cfg = c10.gen_cfg(rng)
+        for s_ in ("scrypt", "bcrypt_sha256"):
+            if s_ not in cfg["schemes"] and "plaintext" not in cfg["schemes"] and rng.random() < 0.5 and not cfg.get("all") and not any(c.get("all") for c in cfg["cats"].values()):
+                cfg["schemes"].append(s_)
+                cfg["opts"][s_] = {"rounds": 2} if s_ == "scrypt" else {"default_rounds": 4, "max_rounds": 5}
+        try:
+            for cat in [None] + list(cfg["cats"]):
+                M.default_scheme(cfg, cat)
+                for s_ in cfg["schemes"]:
+                    if s_ in ROUNDS:
+                        M.window(cfg, s_, cat, limits(s_))
+            ctx = CryptContext(**M.render(cfg, idx % 30))
+        except (M.Invalid, ValueError, KeyError):
+            continue
+        cats = [None] + list(cfg["cats"])
+        corpus = c10.corpus_for(cfg)
+        mine = [(c, ctx.hash(P, category=c, scheme=s_)) for c in cats for s_ in cfg["schemes"] if s_ not in ("unix_disabled", "plaintext")]
+
+        def params(hs):
+            m = re.match(r"^\$scrypt\$ln=(\d+),r=(\d+),p=(\d+)\$", hs)
+            return m.groups() if m else None
+
+        def snapshot():
+            snap = dict(to_dict=sorted((k, repr(v)) for k, v in ctx.to_dict().items()))
+            snap["own"] = [(c, hs[:24], ctx.identify(hs, category=c), ctx.needs_update(hs, category=c), ctx.verify(P, hs, category=c)) for c, hs in mine]
+            snap["corpus"] = [(hs[:24], c10.fp_item(lambda: ctx.identify(hs)), c10.fp_item(lambda: ctx.needs_update(hs))) for hs in corpus]
+            snap["new_params"] = [params(ctx.hash(P, scheme="scrypt")) if "scrypt" in cfg["schemes"] else None]
+            return snap
+        before = snapshot()
+        others = []
+        for j in range(3):
+            okw = {"schemes": [s_ for s_ in cfg["schemes"] if s_ != "unix_disabled"]}
+            for s_ in okw["schemes"]:
+                if s_ in ROUNDS:
+                    for k, v in gen_opts(rng, s_).items():
+                        okw[f"{s_}__{k}"] = v
+                if s_ == "scrypt":
+                    okw.update({"scrypt__rounds": 1, "scrypt__parallelism": rng.choice([2, 3]), "scrypt__block_size": rng.choice([1, 2, 4])})
+                if s_ == "bcrypt":
+                    okw["bcrypt__ident"] = rng.choice(["2a", "2y", "2b"])
+                if "salt_size" in getattr(H.get(s_), "setting_kwds", ()) and H.get(s_).min_salt_size != H.get(s_).max_salt_size:
+                    okw[f"{s_}__salt_size"] = max(H.get(s_).min_salt_size, 1) + (j % 2)
+            try:
+                other = CryptContext(**okw)
+                for s_ in okw["schemes"]:
+                    if s_ != "plaintext":
+                        other.verify(P, other.hash(P, scheme=s_))
+                for c, hs in mine[:4]:
+                    other.verify_and_update(P, hs)
+                others.append(okw)
+            except ValueError:
+                continue
+        after = snapshot()
+        run.case(("isolation", len(cfg["schemes"]), len(others), "scrypt" in cfg["schemes"]), dict(config=M.render(cfg, 0), other_contexts=others[:2]))
+        run.count("isolation_cases")
+        run.count("isolation_other_contexts", len(others))
+        diff = [k for k in before if before[k] != after[k]]
+        if diff:
+            k = diff[0]
+            pair = next(((a, b) for a, b in zip(before[k], after[k]) if a != b), (before[k], after[k]))
+            run.violation(f"C04|isolation|{'+'.join(diff)}", f"after other contexts over the same schemes were built and used, this context answers differently: {k}: {str(pair[0])[:150]} -> {str(pair[1])[:150]}",
+                          dict(config=M.render(cfg, 0), other_contexts=others, differs=diff))
+
+
 def body(run):
     total = 320 if run.tier == "quick" else 6400
     per = total // 16
     run.parallel("checks.c04", "work", [dict(start=i * per, count=per) for i in range(16)], timeout=900 if run.tier == "quick" else 5400)
+    niso = 48 if run.tier == "quick" else 960
+    run.parallel("checks.c04", "isolation", [dict(start=90000 + i * (niso // 16), count=niso // 16) for i in range(16)], timeout=900 if run.tier == "quick" else 3600)
+    run.require("isolation_cases", niso // 3)
+    run.require("isolation_other_contexts", niso // 2)
     run.require("configs", total // 3)
     run.require("configs_with_wildcard_scheme_options", 20)
     run.require("configs_with_category_differing_only_by_wildcard", 5)
